@@ -16,11 +16,11 @@ const X: TableDefinition<u64, &[u8]> = TableDefinition::new("x");
 const Y: TableDefinition<u64, &[u8]> = TableDefinition::new("y");
 const MM: MultimapTableDefinition<u64, u64> = MultimapTableDefinition::new("mm");
 
-pub const SCENARIOS: [&str; 11] = ["S1", "S2", "S3", "S3g", "S8g", "S4", "S7", "S5", "S5p", "S6", "S9"];
+pub const SCENARIOS: [&str; 12] = ["S1", "S2", "S3", "S3g", "S8g", "S4", "S7", "S5", "S5p", "S6", "S9", "S10"];
 
 pub fn threads_of(scn: &str) -> usize {
     match scn {
-        "S2" | "S3" | "S3g" | "S8g" | "S6" | "S9" => 2,
+        "S2" | "S3" | "S3g" | "S8g" | "S6" | "S9" | "S10" => 2,
         _ => 3,
     }
 }
@@ -836,6 +836,66 @@ fn s9(cache_idx: usize, prefix: &[usize]) -> (ExecResult, Verdict) {
     (x, v)
 }
 
+// ------------------------------------------------------------------------------------------ S10
+
+/// drop(Database) on one thread while a read transaction that began earlier reads on another:
+/// every read returns the committed value or an error, and nothing reaches the backend after its
+/// close() (backend calls are scheduling points here)
+fn s10(cache_idx: usize, prefix: &[usize]) -> (ExecResult, Verdict) {
+    schedx::set_backend_points(true);
+    let (db, backend) = open_seed(cache_idx);
+    let rt = db.begin_read().unwrap();
+    let x = rt.open_table(X).unwrap();
+    let log = Arc::new(Log::default());
+    let mut bodies: Vec<Box<dyn FnOnce() + Send>> = vec![];
+    bodies.push(Box::new(move || {
+        drop(db);
+    }));
+    {
+        let log = log.clone();
+        bodies.push(Box::new(move || {
+            for k in [5u64, 12] {
+                log.call(1, "get", || {
+                    let s = match x.get(k) {
+                        Ok(Some(g)) => {
+                            let want = if k == 5 { val(55, 1400) } else { val(12, 40) };
+                            if g.value() == want.as_slice() { "value".to_string() } else { "WRONG".to_string() }
+                        }
+                        Ok(None) => "WRONG(none)".to_string(),
+                        Err(e) => format!("err:{e}").chars().take(40).collect(),
+                    };
+                    ((), s)
+                });
+            }
+            drop(x);
+            drop(rt);
+        }));
+    }
+    let x = schedx::run_execution(prefix, bodies);
+    schedx::set_backend_points(false);
+    let v = (|| -> Verdict {
+        finish(&x)?;
+        let mut obs = vec![];
+        for e in log.events() {
+            let Ev::Call(_, _, _, _, p) = e;
+            if p.starts_with("WRONG") {
+                return Err("a read transaction that outlived the Database returned wrong data".into());
+            }
+            obs.push(p);
+        }
+        let cv = backend.contract_violations();
+        if !cv.is_empty() {
+            return Err(format!("storage contract: {}", cv.join("; ")));
+        }
+        let closes = backend.lock().close_calls;
+        if closes != 1 {
+            return Err(format!("close() was called {closes} times"));
+        }
+        Ok(obs.join(","))
+    })();
+    (x, v)
+}
+
 pub fn run_once(scn: &str, cache_idx: usize, prefix: &[usize]) -> (ExecResult, Verdict) {
     // a panic while judging or cleaning up (e.g. redb finds a lock poisoned by a thread that
     // panicked during the schedule) must not take the worker process down with its findings
@@ -858,6 +918,7 @@ fn run_once_inner(scn: &str, cache_idx: usize, prefix: &[usize]) -> (ExecResult,
     schedx::clear_last_exec();
     match scn {
         "S9" => s9(cache_idx, prefix),
+        "S10" => s10(cache_idx, prefix),
         "S1" => s1(cache_idx, prefix),
         "S2" => s2(cache_idx, prefix),
         "S3" => s3(cache_idx, prefix, false, false),
